@@ -76,7 +76,7 @@ Definition run_tpe_cmd (args : list sexp) : sexp :=
   | [pq; pes; ps; cs] =>
       match d_prequest pq, d_list d_pentity pes, d_list d_tpolicy ps, d_list d_completion cs with
       | Some pq, Some pes, Some ps, Some cs =>
-          match tpe pq pes ps with
+          match tpe call_full pq pes ps with
           | None => SY "tpe_none"
           | Some rs =>
               SL [SY "tpe_ok";
@@ -84,8 +84,8 @@ Definition run_tpe_cmd (args : list sexp) : sexp :=
                   match tpe_reason rs with Some l => SL [SY "some"; e_list SS l] | None => SY "none" end;
                   e_list (fun p => SL [SS (rp_id p); e_rbucket (bucket_of (rp_res p)); e_residual (rp_res p)]) rs;
                   e_list (fun qe => SL [e_bool (completes pq pes (fst qe) (snd qe));
-                                        e_decision (rdecision (reauthorize rs (fst qe) (snd qe)));
-                                        e_list (fun p => e_outcome (reval_policy (fst qe) (snd qe) (rp_res p))) rs]) cs]
+                                        e_decision (rdecision (reauthorize call_full rs (fst qe) (snd qe)));
+                                        e_list (fun p => e_outcome (reval_policy call_full (fst qe) (snd qe) (rp_res p))) rs]) cs]
           end
       | _, _, _, _ => bad_input
       end
